@@ -522,7 +522,15 @@ func genSds(seed uint64, n int, path string) {
 		rootDirty := false // the CA's root was changed since the last CA call that certainly happened
 		nops := 3 + r.Intn(9)
 		for k := 0; k < nops; k++ {
-			switch x := r.Intn(22); {
+			switch x := r.Intn(24); {
+			case x < 7 && nW() == 0 && next < 5 && r.Chance(1, 2):
+				// an INITIAL request while the CA is failing: the rotation empties the cache (no default subscriber
+				// refills it), the CA's next call fails, the new stream's first request fails and the stream ends
+				out.Line("rotate")
+				out.Line("cafail", "1")
+				out.Line("sub", strconv.Itoa(next), wire.Pick(r, []string{"w", "wr", "r"}))
+				next++ // the cache is empty here, so the request reaches the CA, fails, and the server ends the stream
+				k += 2
 			case x < 7 && next < 5:
 				res := wire.Pick(r, []string{"w", "w", "r", "r", "wr"})
 				out.Line("sub", strconv.Itoa(next), res)
@@ -537,23 +545,23 @@ func genSds(seed uint64, n int, path string) {
 					out.Line("unsub", strconv.Itoa(id))
 					live[id] = ""
 				}
-			case x < 9:
+			case x < 10:
 				// change the resource set on a live stream / re-subscribe after an unsubscribe
 				if id := pick(func(string) bool { return true }); id >= 0 && !failing {
 					res := wire.Pick(r, []string{"w", "r", "wr"})
 					out.Line("resub", strconv.Itoa(id), res)
 					live[id] = res
 				}
-			case x < 10:
+			case x < 11:
 				if id := pick(func(string) bool { return true }); id >= 0 {
 					out.Line("drop", strconv.Itoa(id))
 					delete(live, id)
 				}
-			case x < 12:
-				out.Line("rotate")
 			case x < 14:
-				out.Line("firestale")
+				out.Line("rotate")
 			case x < 16:
+				out.Line("firestale")
+			case x < 18:
 				// whether a ROOTCA subscriber re-requests before or after the cache is emptied is a race of
 				// the real system; with a live default subscriber the outcome is the same either way
 				if nW() == 0 {
@@ -575,7 +583,7 @@ func genSds(seed uint64, n int, path string) {
 				}
 				cfg = b
 				out.Line("bundle", b)
-			case x < 18:
+			case x < 20:
 				out.Line("caroot", string(rune('A'+r.Intn(nRoots))))
 				rootDirty = true
 			default:
